@@ -15,9 +15,10 @@
 (*   group field                   group::merge        check(c), then per  *)
 (*                                 record of the group enter(c) and the    *)
 (*                                 record is merged at c - 1               *)
-(*   unknown group                 skip_field          check(c), then per  *)
-(*                                 inner record enter(c), skipped at c - 1 *)
-(*   packed / scalar / string / unknown non-group      nothing             *)
+(*   unknown field (any wire type) skip_field          check(c); a group   *)
+(*                                 then, per inner record, enter(c) and    *)
+(*                                 skips the record at c - 1               *)
+(*   packed / scalar / string                          nothing             *)
 (* Events(D, M, bytes, c) is the exact sequence of budget events           *)
 (* <<"chk" | "ent", count>> a decode of `bytes` as message M produces,     *)
 (* ending at the first failing check (count 0) or malformed record.        *)
@@ -42,8 +43,10 @@ RECURSIVE SkipInner(_, _, _)
 
 \* skipping an unknown record r (skip_field) with budget c
 SkipEvents(r, tagOfGroup, c) ==
-  IF r.wt # WT_SGROUP THEN Go(<<>>)
-  ELSE IF c = 0 THEN Stop(<<Chk(0)>>)
+  \* skip_field consults the budget for EVERY unknown field, whatever its wire type (so an unknown scalar in a message
+  \* nested exactly RECURSION_LIMIT levels deep is rejected, as built)
+  IF c = 0 THEN Stop(<<Chk(0)>>)
+  ELSE IF r.wt # WT_SGROUP THEN Go(<<Chk(c)>>)
   ELSE LET body == SubSeq(r.bytes, 1, Len(r.bytes) - Len(KeyBytes(r.tag, WT_EGROUP)))
            inner == ParseRecords(body)
        IN IF ~inner.ok THEN Stop(<<Chk(c)>>) ELSE Then(Go(<<Chk(c)>>), SkipInner(inner.recs, 1, c))
